@@ -33,6 +33,17 @@ static void lst_make_sequence(vp_rng_t* r, int mode, uint64_t idx, seq_t* s)
 {
     int nd = 1 + (int)vp_rng_below(r, 3);
     const char* name = "?";
+    if (idx % 41 == 17) {                 /* soak: a long stream of valid messages through one listener instance */
+        int longm = (int)((idx / 41) & 1);
+        for (int d = 0; d < MAX_DGRAMS; d++) {
+            uint8_t b[DGRAM_MAX]; memset(b, 0, sizeof b);
+            char msg[1500]; for (int i = 0; i < 1500; i++) msg[i] = (char)('A' + vp_rng_below(r, 26));
+            seq_add(s, b, build_valid(r, mode, (int)(vp_rng_next(r) & 1), b, msg, longm ? 1300 + (size_t)vp_rng_below(r, 100) : 1 + (size_t)vp_rng_below(r, 40), 1));
+        }
+        s->repeat = longm ? 40 : 260;
+        snprintf(s->tmpl, sizeof s->tmpl, "%s", longm ? "soak-valid-long-messages" : "soak-valid-short-messages");
+        return;
+    }
     for (int d = 0; d < nd; d++) {
         uint8_t b[DGRAM_MAX]; memset(b, 0, sizeof b);
         char msg[1500]; for (int i = 0; i < 1500; i++) msg[i] = (char)('A' + vp_rng_below(r, 26));
